@@ -9,10 +9,16 @@
 (* A constructor may branch on the input "flag"; BranchInputsMayBeLazy = FALSE   *)
 (* is the usage assumption under which transparency holds (TLC shows it fails    *)
 (* otherwise: the constructor then branches on a lazy field).                    *)
+(* FILE-VALUED INPUTS: the memo is keyed by the HASH of the values, and a file   *)
+(* hashes by name and content only.  x >= 10 stands for "the file x - 10 at      *)
+(* another path" (equal name and content).  KeyOnContentOnly = TRUE is the memo  *)
+(* as first built (key = content hash): TLC reports NoLeak violated - the second *)
+(* construction gets the first one's paths; FALSE = the key also distinguishes   *)
+(* paths (fix recorded under C30).                                               *)
 EXTENDS Naturals, Sequences, FiniteSets, TLC, Json
 CONSTANTS Defs,          \* workflow definitions, e.g. {"W", "V"}
           Vectors,       \* set of input vectors: records [x, ys, flag]
-          MaxOps, BranchInputsMayBeLazy
+          MaxOps, BranchInputsMayBeLazy, KeyOnContentOnly
 Inputs == {"x", "ys", "flag"}
 LazySets == IF BranchInputsMayBeLazy THEN SUBSET Inputs ELSE SUBSET {"x", "ys"}
 VARIABLES cache,   \* set of [w, keys, vals, obj]
@@ -21,6 +27,9 @@ VARIABLES cache,   \* set of [w, keys, vals, obj]
 vars == <<cache, objs, nobj, h>>
 Init == cache = {} /\ objs = <<>> /\ nobj = 0 /\ h = <<>>
 Sub(v, K) == [k \in K |-> v[k]]
+(* what the memo compares: the key image of the values *)
+KeyOf(k, val) == IF KeyOnContentOnly /\ k = "x" /\ val >= 10 THEN val - 10 ELSE val
+KSub(v, K) == [k \in K |-> KeyOf(k, v[k])]
 (* the branch a constructor takes: decided by the flag value when it is concrete, *)
 (* a lazy flag is truthy                                                          *)
 Branch(v, K) == IF "flag" \in K THEN v.flag ELSE TRUE
@@ -29,8 +38,8 @@ Obs(o, K) == [w |-> objs[o].w, branch |-> objs[o].branch, vals |-> Sub(objs[o].v
 
 Construct(w, v, lazy, isRun) ==
   LET K == Inputs \ lazy
-      exact == {e \in cache : e.w = w /\ e.keys = K /\ e.vals = Sub(v, K)}
-      super == {e \in cache : e.w = w /\ e.keys \subseteq K /\ e.vals = Sub(v, e.keys)}
+      exact == {e \in cache : e.w = w /\ e.keys = K /\ e.vals = KSub(v, K)}
+      super == {e \in cache : e.w = w /\ e.keys \subseteq K /\ e.vals = KSub(v, e.keys)}
   IN /\ Len(h) < MaxOps
      /\ IF exact # {}
         THEN LET e == CHOOSE e \in exact : TRUE IN
@@ -41,14 +50,16 @@ Construct(w, v, lazy, isRun) ==
         ELSE IF super # {}
         THEN LET e == CHOOSE e \in super : TRUE
                  n == nobj + 1
-                 new == [w |-> w, vals |-> Sub(v, K), branch |-> objs[e.obj].branch, ran |-> IF isRun THEN 1 ELSE 0]
+                 \* a deep copy of the cached object: ITS values on the keys it was built with, the request's on the others
+                 cv == [k \in K |-> IF k \in e.keys THEN objs[e.obj].vals[k] ELSE v[k]]
+                 new == [w |-> w, vals |-> cv, branch |-> objs[e.obj].branch, ran |-> IF isRun THEN 1 ELSE 0]
              IN /\ objs' = Append(objs, new) /\ nobj' = n /\ UNCHANGED cache
                 /\ h' = Append(h, [op |-> IF isRun THEN "run" ELSE "construct", w |-> w, v |-> v, lazy |-> lazy,
-                                   how |-> "superset", obj |-> n, obs |-> [w |-> w, branch |-> new.branch, vals |-> Sub(v, K)]])
+                                   how |-> "superset", obj |-> n, obs |-> [w |-> w, branch |-> new.branch, vals |-> cv]])
         ELSE LET n == nobj + 1
                  new == [w |-> w, vals |-> Sub(v, K), branch |-> Branch(v, K), ran |-> IF isRun THEN 1 ELSE 0]
              IN /\ objs' = Append(objs, new) /\ nobj' = n
-                /\ cache' = cache \cup {[w |-> w, keys |-> K, vals |-> Sub(v, K), obj |-> n]}
+                /\ cache' = cache \cup {[w |-> w, keys |-> K, vals |-> KSub(v, K), obj |-> n]}
                 /\ h' = Append(h, [op |-> IF isRun THEN "run" ELSE "construct", w |-> w, v |-> v, lazy |-> lazy,
                                    how |-> "miss", obj |-> n, obs |-> [w |-> w, branch |-> new.branch, vals |-> Sub(v, K)]])
 Next == \E w \in Defs, v \in Vectors : \/ \E lazy \in LazySets : Construct(w, v, lazy, FALSE)
